@@ -58,15 +58,19 @@ Fixpoint break_at (sep : Z) (s : list Z) : option (list Z * list Z) :=
               else match break_at sep r with Some (a, b) => Some (c :: a, b) | None => None end
   end.
 
+Definition tail_okb (hexb : Z -> bool) (tail : list Z) : bool :=
+  match tail with
+  | [] => true
+  | c0 :: rest =>
+    if c0 =? 82 then
+      match rest with [] => true | [c] => (48 <=? c) && (c <=? 56) | _ => false end
+    else forallb hexb tail && Nat.even (length tail) && Nat.leb (length tail) 16
+  end.
+
 Definition matches_patternb (upper_only : bool) (s : list Z) : bool :=
   let hexb := if upper_only then is_hex_upperb else is_hexb in
   match break_at 35 s with
   | None => false
   | Some (idp, tail) =>
-    (Nat.eqb (length idp) 3 || Nat.eqb (length idp) 8) && forallb hexb idp &&
-    match tail with
-    | [82] => true
-    | [82; c] => (48 <=? c) && (c <=? 56)
-    | _ => forallb hexb tail && Nat.even (length tail) && Nat.leb (length tail) 16
-    end
+    (Nat.eqb (length idp) 3 || Nat.eqb (length idp) 8) && forallb hexb idp && tail_okb hexb tail
   end.
